@@ -39,6 +39,10 @@ WANT_LEVEL = {
 def run(F, rep, tier):
     rep.explanation = EXPLANATION
     rep.undecided = UNDECIDED
+    # `call .. binds tighter still`: the call after `->` ends before any binary operator (shared with C14)
+    import core
+    import c14
+    core.borrow(rep, c14.arrow, lambda o: o["rule"] == "ARROW" and o["key"] == "parser|rhs-level", F)
     # ---- ORDER
     adt = F.adt(PREC)
     order = [v["name"] for v in adt["variants"]]
